@@ -282,6 +282,7 @@ def _memory_layout(ctx):
             lab = [n for n in l.body if isinstance(n, ast.Assign) and norm(n.targets[0]) == "self.global_labels[%s]" % tv[0]]
             ctx.ob("C23.R7", site, "the literal's label resolves to that address", bool(lab) and bool(addr) and norm(lab[0].value) == norm(addr[0].targets[0]), construct="literal-label")
     frame_slots(ctx, "C23.R8")
+    _binop_lowering(ctx)
 
 
 def _paths(stmts, state, fresh):
@@ -385,3 +386,61 @@ def frame_slots(ctx, rid):
     ctx.ob(rid, site, "bottom frames: whatever padding precedes the slot is part of the frame (offset - old size == growth - size)", ok, construct="padding-in-frame")
     loc = [c for c in ast.walk(fn) if isinstance(c, ast.Call) and norm(c.func) == "StackLocation"]
     ctx.ob(rid, site, "the location handed out is (offset, size)", len(loc) == 1 and [norm(a) for a in loc[0].args] == ["offset", fn.args.args[1].arg], construct="location")
+
+
+# opcode rewrites that are equivalent when the right operand is a constant power of two
+SOUND_REWRITES = {("i32.div_u", "i32.shr_u"), ("i64.div_u", "i64.shr_u"), ("i32.mul", "i32.shl"), ("i64.mul", "i64.shl"), ("i32.rem_u", "i32.and"), ("i64.rem_u", "i64.and")}
+
+
+def _binop_lowering(ctx):
+    """R9: a binary IR operation becomes `<left> <right> <opcode>` with the opcode of binop_map.  A special case that
+    swaps the opcode (strength reduction) must be an equivalence: signed division by 2^k is NOT an arithmetic shift
+    (the shift rounds toward minus infinity, the division toward zero)."""
+    from .. import minieval, sym
+    ctx.rule("C23.R9", "binary operations are lowered as left operand, right operand, opcode from binop_map; any special case that emits another opcode is an equivalence for every operand value (table of sound power-of-two rewrites; signed division is never turned into a shift)", floor=3)
+    cls = ctx.cls(F, "IrToWasmCompiler")
+    fn = ctx.fn(F, "IrToWasmCompiler.do_tree")
+    site = F + ":IrToWasmCompiler.do_tree"
+    br = [n for n in fn.body if isinstance(n, ast.If) and " ".join(norm(n.test).split()) == "tree.name in self.binop_map"]
+    ctx.need(len(br) == 1, "do_tree: binop branch not found")
+    body = br[0].body
+    table = _table(cls, "binop_map")
+    ctx.need(table, "binop_map not found")
+    opcodes = sorted({try_const(v) for v in table.values if isinstance(try_const(v), str)})
+    kids = [c for st in body for c in ast.walk(st) if isinstance(c, ast.Call) and norm(c.func) == "self.do_tree"]
+    args = [" ".join(norm(c.args[0]).split()) for c in kids]
+    ctx.ob("C23.R9", site, "the left operand tree is emitted before the right one, each exactly once on every path that keeps it", args[:1] == ["tree[0]"] and "tree[0]" not in args[1:], construct="operand-order", detail=str(args))
+    asg = [n for st in body for n in ast.walk(st) if isinstance(n, ast.Assign) and norm(n.targets[0]) == "opcode"]
+    base = [n for n in asg if " ".join(norm(n.value).split()) == "self.binop_map[tree.name]"]
+    ctx.ob("C23.R9", site, "the opcode is taken from binop_map[tree.name]", len(base) == 1, construct="opcode-from-table")
+    em = [c for st in body for c in ast.walk(st) if isinstance(c, ast.Call) and norm(c.func) == "self.emit" and c.args and norm(c.args[0]) == "opcode"]
+    ctx.ob("C23.R9", site, "and emitted after both operands", len(em) == 1 and all(k.lineno < em[0].lineno for k in kids), construct="opcode-last")
+    # special cases: every other assignment to `opcode`
+    bad, seen = [], 0
+    for n in asg:
+        if n in base:
+            continue
+        seen += 1
+        conds = sym.conjuncts(n, fn, {})
+        for o in opcodes:
+            env = {"opcode": o}
+            applies = True
+            for c, pol in conds:
+                if "binop_map" in norm(c):
+                    continue
+                try:
+                    if bool(minieval.ev(c, env)) != pol:
+                        applies = False
+                        break
+                except minieval.Undecidable:
+                    continue          # a condition on the operand (constant, power of two): assumed satisfiable
+            if not applies:
+                continue
+            try:
+                o2 = minieval.ev(n.value, env)
+            except minieval.Undecidable:
+                bad.append("%s -> ? (%s)" % (o, norm(n.value)[:40]))
+                continue
+            if o2 != o and (o, o2) not in SOUND_REWRITES:
+                bad.append("%s -> %s" % (o, o2))
+    ctx.ob("C23.R9", site, "every opcode rewrite in the binop branch is in the table of equivalences (%d special case(s) found)" % seen, not bad, construct="rewrites-sound", detail="; ".join(bad[:4]))
